@@ -25,7 +25,15 @@ def obs_key(r):
     return json.dumps([r.get("obs"), r.get("psz")], separators=(",", ":"))
 
 
+def entry_hash(r, case):
+    return hashlib.sha1((case_key(r, case) + "\x00" + obs_key(r)).encode()).hexdigest()[:14]
+
+
 class Findings:
+    """known_findings.jsonl: one JSON object per open finding (plus 'fixed: ...' lines).
+    Table-form findings list the exact failing inputs with the exact wrong observation as hashes
+    in findings/<id>.tbl (sha1 of 'statement text|bits|where|why' + observed bytes / pass-1 size)."""
+
     def __init__(self, path=None):
         self.path = path or os.path.join(VERIF, "known_findings.jsonl")
         self.items = []
@@ -33,22 +41,14 @@ class Findings:
         if os.path.exists(self.path):
             for line in open(self.path):
                 line = line.strip()
-                if not line or line.startswith("#"):
-                    continue
-                if line.startswith("fixed:"):
+                if not line or line.startswith("#") or line.startswith("fixed:"):
                     continue
                 f = json.loads(line)
                 self.items.append(f)
                 if f.get("table") and f.get("status") == "open":
-                    t = {}
                     tp = os.path.join(VERIF, f["table"])
                     if os.path.exists(tp):
-                        for tl in open(tp):
-                            tl = tl.strip()
-                            if tl:
-                                e = json.loads(tl)
-                                t[e["k"]] = e["o"]
-                    self.tables[f["id"]] = t
+                        self.tables[f["id"]] = set(open(tp).read().split())
         self.open = {f["id"]: f for f in self.items if f.get("status") == "open"}
 
     def match(self, r, case):
@@ -56,9 +56,8 @@ class Findings:
         if d and d in self.open:
             return self.open[d]
         if self.tables:
-            k = case_key(r, case)
-            o = obs_key(r)
+            h = entry_hash(r, case)
             for fid, t in self.tables.items():
-                if t.get(k) == o:
+                if h in t:
                     return self.open[fid]
         return None
